@@ -990,6 +990,10 @@ def clamp(x, min=None, max=None):
         return a
     return _ew1(f, x)
 clip = clamp
+@api
+def clamp_min(x, min): return clamp._impl(x, min=min)
+@api
+def clamp_max(x, max): return clamp._impl(x, max=max)
 
 @api
 def where(cond, x=None, y=None):
@@ -1385,7 +1389,7 @@ def _bind():
     g = globals()
     names = '''add sub mul div neg pow sin cos tan exp log sqrt atan arctan asin arcsin acos abs sign nan_to_num square
         reciprocal rsqrt gt ge lt le eq ne logical_not logical_and logical_or all any sum mean prod cumsum max min amax amin
-        argmax argmin clamp clip unsqueeze squeeze expand expand_as repeat repeat_interleave tile reshape view view_as flatten ravel transpose
+        argmax argmin clamp clip clamp_min clamp_max unsqueeze squeeze expand expand_as repeat repeat_interleave tile reshape view view_as flatten ravel transpose
         swapaxes swapdims permute movedim moveaxis t split chunk unbind select narrow index_select gather take_along_dim flip roll
         diagonal matmul mm bmm mv dot norm det inverse topk sort argsort median std var rad2deg where isnan isinf isfinite floor ceil round floor_divide remainder
         maximum minimum tril triu atan2 cross outer diag trace expm1 log1p vecdot multiply divide true_divide absolute'''.split()
